@@ -455,3 +455,94 @@ PROGRAM_ENTRY(h_program_1out, 1, 1)
 PROGRAM_ENTRY(h_program_2, 2, 0)
 PROGRAM_ENTRY(h_program_2out, 2, 1)
 #endif
+
+// =========================================================================================================
+// 3. labels: two routines (p, then q) of GOTO / IF..THEN GOTO / label statements built as P of parse.cpp builds them, compiled by
+// the real dispatchGoto / dispatchIf / dispatchMark, closed by the real popSymbols, patched by the real backpatch.  The statement
+// KINDS are fixed per entry (they determine the code positions, see sym_code); every label NAME is symbolic in {l, m}, so one entry
+// covers: reference before / after the definition, reference without definition, definition without reference, one or two labels,
+// the same name used in both routines.  (A label defined twice in a routine is outside C04; the last definition wins here.)
+#if GR_PART == 4
+enum { K_NONE = 0, K_GOTO = 1, K_IF = 2, K_MARK = 3 };
+#define LAB_OPS 4
+struct LabRec {
+  bool ref[2][2]; int pos[2][2];            // [routine][label]: referenced; position recorded by the last definition, -1 if none
+  int jloc[LAB_OPS], jlab[LAB_OPS], jrt[LAB_OPS], nj; int start[2], ret[2];
+};
+static void lab_op(GenState &gs, LabRec &R, int rt, int kind, int slot) {
+  if (kind == K_NONE) return;
+  int lab = pick(0, 1); CEX_kind[slot] = kind; CEX_lab[slot] = lab;
+  Node nm, go, x, c, eq, iff, mk;
+  mknode(nm, Node::Type::NAME, sel2(LN, lab), NULL, NULL);
+  if (kind == K_GOTO) {
+    mknode(go, Node::Type::GOTO, std::string(), &nm, NULL);
+    dispatchGoto(gs, &go);
+  } else if (kind == K_IF) {
+    mknode(x, Node::Type::NAME, std::string("x"), NULL, NULL);
+    mknode(c, Node::Type::NUMBER, std::string("0"), NULL, NULL);
+    mknode(eq, Node::Type::EQ, std::string(), &x, &c);
+    mknode(go, Node::Type::GOTO, std::string(), &nm, NULL);
+    mknode(iff, Node::Type::IF, std::string(), &eq, &go);
+    dispatchIf(gs, &iff);
+  } else {
+    mknode(mk, Node::Type::MARK, std::string(), &nm, NULL);
+    int at = gs.getNextPos();       // (no breakpoint site on top: all nodes carry the current line)
+    dispatchMark(gs, &mk);
+    if (lab == 0) R.pos[rt][0] = at; else R.pos[rt][1] = at;
+    return;
+  }
+  if (lab == 0) R.ref[rt][0] = true; else R.ref[rt][1] = true;
+  R.jloc[R.nj] = gs.getNextPos() - 1; R.jlab[R.nj] = lab; R.jrt[R.nj] = rt; R.nj++;
+}
+static int lab_routine(GenState &gs, LabRec &R, int rt, int k0, int k1, int k2, int slot0) {
+  gs.pushSymbols(std::string(rt == 0 ? "p" : "q"));
+  R.start[rt] = gs.getNextPos();
+  lab_op(gs, R, rt, k0, slot0); lab_op(gs, R, rt, k1, slot0 + 1); lab_op(gs, R, rt, k2, slot0 + 2);
+  R.ret[rt] = gs.getNextPos();
+  gs.emit(Instruction::Ret(0));
+  int e0 = count_err(gs, ET::UNKNOWN_MARK);
+  gs.popSymbols(R.start[rt]);
+  int want = (R.ref[rt][0] && R.pos[rt][0] < 0 ? 1 : 0) + (R.ref[rt][1] && R.pos[rt][1] < 0 ? 1 : 0);
+  return (count_err(gs, ET::UNKNOWN_MARK) - e0) - want;     // 0 iff the rule holds for this routine
+}
+static void labels_case(int a0, int a1, int a2, int b0, int b1) {
+  GenState gs = fresh_state();
+  gs.emit(Instruction::PrepareExec(-1, -1, 0));
+  LabRec R;
+  for (int r = 0; r < 2; r++) for (int q = 0; q < 2; q++) { R.ref[r][q] = false; R.pos[r][q] = -1; }
+  R.nj = 0;
+  int d0 = lab_routine(gs, R, 0, a0, a1, a2, 0);
+  ASSERT(d0 == 0, "C04: popSymbols records UNKNOWN_MARK exactly once per label that is referenced in the routine and never set in it");
+  int d1 = lab_routine(gs, R, 1, b0, b1, K_NONE, 3);
+  ASSERT(d1 == 0, "C04: a label that is set only in another routine does not count: UNKNOWN_MARK is recorded for the second routine by the same rule");
+  ASSERT((int)gs.errors.size() == count_err(gs, ET::UNKNOWN_MARK), "C04: GOTO, IF and label statements record no other error");
+  // every emitted jump is listed for patching, in order
+  bool listed = (int)gs.backpatching_todo.size() == R.nj;
+  for (int j = 0; j < LAB_OPS; j++) if (j < R.nj && listed) listed = gs.backpatching_todo.u.d[j] == R.jloc[j];
+  ASSERT(listed, "C03: every JMP / JMPC emitted for GOTO and IF is entered in backpatching_todo, nothing else is");
+  bool all_set = gs.errors.size() == 0;
+  if (all_set) {
+    gs.backpatch();
+    ASSERT(gs.errors.size() == 0 && gs.backpatching_todo.size() == 0, "C03: backpatch() records no error when every referenced label is set, and empties the list");
+    bool lands = true, inside = true, kept = true;
+    for (int j = 0; j < LAB_OPS; j++) if (j < R.nj) {
+      Instruction ins = code_at(gs, R.jloc[j]);
+      int rt = R.jrt[j];
+      int tgt = R.jlab[j] == 0 ? (rt == 0 ? R.pos[0][0] : R.pos[1][0]) : (rt == 0 ? R.pos[0][1] : R.pos[1][1]);
+      int lo = rt == 0 ? R.start[0] : R.start[1], hi = rt == 0 ? R.ret[0] : R.ret[1];
+      kept = kept && (ins.op == OpCode::JMP || ins.op == OpCode::JMPC);
+      lands = lands && ins.parameters.jmp.offset == tgt - R.jloc[j];      // (JMP and JMPC: the offset is the first operand)
+      inside = inside && R.jloc[j] + ins.parameters.jmp.offset >= lo && R.jloc[j] + ins.parameters.jmp.offset <= hi;
+    }
+    ASSERT(kept && lands, "C03: after backpatch() every listed JMP / JMPC has offset = position recorded for its label in its own routine - own position");
+    ASSERT(inside, "C03: every patched jump lands inside the code range of its own routine (entry .. RET)");
+  }
+  ASSERT(!all_set, "C03(EXISTS): a combination in which every referenced label is set");
+  ASSERT(all_set, "C04(EXISTS): a combination with an unknown label");
+}
+#define LABELS_ENTRY(nm, a0, a1, a2, b0, b1) extern "C" void nm() { labels_case(a0, a1, a2, b0, b1); ASSERT(0, "WITNESS: end of " #nm " reachable"); }
+LABELS_ENTRY(h_labels_fwd, K_GOTO, K_MARK, K_NONE, K_GOTO, K_NONE)     // p: GOTO x; y: ...      q: GOTO z
+LABELS_ENTRY(h_labels_back, K_MARK, K_IF, K_NONE, K_MARK, K_GOTO)      // p: x: IF .. GOTO y     q: z: GOTO w
+LABELS_ENTRY(h_labels_two, K_IF, K_GOTO, K_MARK, K_MARK, K_NONE)       // p: IF .. GOTO x; GOTO y; z: ...   q: w: ...
+LABELS_ENTRY(h_labels_mix, K_GOTO, K_MARK, K_MARK, K_IF, K_MARK)       // p: GOTO x; y: z: ...   q: IF .. GOTO w; v: ...
+#endif
